@@ -31,11 +31,7 @@ namespace jsonrpc {
 Rpc::Rpc(event::Loop *loop)
     : request_timeout_(loop)
     , respond_timeout_(loop)
-{
-    using namespace std::placeholders;
-    request_timeout_.setCallback(std::bind(&Rpc::onRequestTimeout, this, _1));
-    respond_timeout_.setCallback(std::bind(&Rpc::onRespondTimeout, this, _1));
-}
+{ }
 
 Rpc::~Rpc()
 {
@@ -49,6 +45,10 @@ bool Rpc::initialize(Proto *proto, int timeout_sec)
 
     request_timeout_.initialize(std::chrono::seconds(1), timeout_sec);
     respond_timeout_.initialize(std::chrono::seconds(1), timeout_sec);
+    //! 必须在每次 initialize() 时设置：TimeoutMonitor::cleanup() 会清掉回调，
+    //! 否则 cleanup() 后再 initialize() 的 Rpc 永远收不到超时通知
+    request_timeout_.setCallback(std::bind(&Rpc::onRequestTimeout, this, _1));
+    respond_timeout_.setCallback(std::bind(&Rpc::onRespondTimeout, this, _1));
 
     proto->setRecvCallback(
         std::bind(&Rpc::onRecvRequest, this, _1, _2, _3),
